@@ -1030,6 +1030,10 @@ def make_segment(data, mode, encoding=None):
     guessed_mode = find_mode(segment_data) if segment_mode != consts.MODE_BYTE else consts.MODE_BYTE
     if segment_mode is not None:
         # Check if user provided mode is applicable for the given segment_data
+        if segment_mode == consts.MODE_KANJI and not is_kanji(segment_data) \
+                or segment_mode == consts.MODE_HANZI and not is_hanzi(segment_data):
+            raise ValueError(f'The provided mode "{get_mode_name(segment_mode)}" '
+                             f'is not applicable for {segment_data!r}.')
         if segment_mode < guessed_mode:
             raise ValueError(f'The provided mode "{get_mode_name(segment_mode)}" '
                              f'is not applicable for {segment_data!r}. '
@@ -1342,6 +1346,24 @@ def is_kanji(data):
             return False
         # The second byte of a Shift JIS double-byte character is 0x40 .. 0xFC (0x7F excluded)
         if not 0x40 <= trail <= 0xfc or trail == 0x7f:
+            return False
+    return True
+
+
+def is_hanzi(data):
+    """\
+    Returns if the `data` can be encoded in "hanzi" mode.
+
+    :param bytes data: The data to check.
+    :rtype: bool
+    """
+    data_len = len(data)
+    if not data_len or data_len % 2:
+        return False
+    data_iter = iter(data)
+    for i in range(0, data_len, 2):
+        lead, trail = next(data_iter), next(data_iter)
+        if not (0xa1 <= lead <= 0xaa or 0xb0 <= lead <= 0xfa) or not 0xa1 <= trail <= 0xfe:
             return False
     return True
 
